@@ -188,35 +188,13 @@ func (s *ORSet) Delta() ReplicatedData {
 	if len(s.delta.added) == 0 && len(s.delta.removed) == 0 {
 		return nil
 	}
-	// Build a minimal ORSet representing just the delta.
-	d := &ORSet{
-		entries: make(map[any][]dot, len(s.delta.added)),
-		clock:   make(map[string]uint64),
-		delta:   newORSetDelta(),
-	}
-	for elem, dots := range s.delta.added {
-		cloned := cloneDots(dots)
-		d.entries[elem] = cloned
-		// Include only clock entries for nodes that produced new dots.
-		for _, dt := range cloned {
-			if c, ok := s.clock[dt.nodeID]; ok {
-				if c > d.clock[dt.nodeID] {
-					d.clock[dt.nodeID] = c
-				}
-			}
-		}
-	}
-	// Include clock entries for removed dots so that peers will see
-	// these dots as dominated and drop them during merge. We use each
-	// dot's own counter (not s.clock) to avoid over-claiming causality
-	// which could accidentally dominate unrelated higher-counter entries.
-	for _, dots := range s.delta.removed {
-		for _, dt := range dots {
-			if dt.counter > d.clock[dt.nodeID] {
-				d.clock[dt.nodeID] = dt.counter
-			}
-		}
-	}
+	// A version-vector clock can only describe a contiguous causal history, so
+	// a delta cannot carry "just the new dots" next to a clock: a peer would read
+	// the clock as proof that every earlier dot it does not find in the delta was
+	// removed. Ship the whole state instead (as ORMap and MVRegister do); merging
+	// it is a plain state merge, safe under reordering, duplication and loss.
+	d := s.cloneInternal()
+	d.delta = newORSetDelta()
 	return d
 }
 
